@@ -42,7 +42,14 @@ func (r *Request) Broker(cluster protocol.Cluster) (protocol.Broker, error) {
 
 	for _, p := range cluster.Topics[topic].Partitions {
 		if p.ID == partition {
-			return cluster.Brokers[p.Leader], nil
+			// When the partition has no leader, or its leader is not a known
+			// broker, fall through like for unknown partitions instead of
+			// reading the zero value of the map, which routed the request to
+			// broker 0.
+			if b, ok := cluster.Brokers[p.Leader]; ok {
+				return b, nil
+			}
+			break
 		}
 	}
 
